@@ -39,8 +39,11 @@ func (m *ModSet) union(o *ModSet) {
 	}
 }
 
+// ghost components that are keyed by an object reference behave like heap arrays for framing purposes
+var refKeyedGhosts = map[string]bool{"g:bufText": true, "g:decUseNumber": true}
+
 func isHeapArray(comp string) bool {
-	return strings.HasPrefix(comp, "Mem:") || strings.HasPrefix(comp, "Arr:") || strings.HasPrefix(comp, "Fld:")
+	return strings.HasPrefix(comp, "Mem:") || strings.HasPrefix(comp, "Arr:") || strings.HasPrefix(comp, "Fld:") || refKeyedGhosts[comp]
 }
 
 // allocRoot follows an address back to the allocation it points into, if that is syntactically evident.
@@ -97,6 +100,11 @@ func (sc *modScan) instr(in ssa.Instruction, ms *ModSet) {
 	case *ssa.Alloc:
 		ms.addFull("heapTop")
 		el := x.Type().(*types.Pointer).Elem()
+		if typeShort(el) == "bytes.Buffer" {
+			if _, declared := g.spec.Ghosts["bufText"]; declared {
+				ms.addFull("g:bufText")
+			}
+		}
 		if _, isArr := el.Underlying().(*types.Array); !isArr {
 			if _, isStruct := el.Underlying().(*types.Struct); !isStruct {
 				ms.addFresh("Mem:" + string(g.sortOf(el)))
